@@ -72,9 +72,9 @@ def run(tier):
                 return vd.finish()
             r = tlc("PatchTrace", "PatchTrace.cfg", workers=1, timeout=1500, env_extra={"TRACE": tpath}, depth_first=True)
             res = r.payloads.get("RESULT", [])
-            if not res or res[0]["n"] != m:
+            lines = open(tpath).read().splitlines()            # m seeded records + the uncorrupted big-literal pair
+            if not res or res[0]["n"] != len(lines) or len(lines) < m:
                 raise vlib.ToolError("PatchTrace did not consume the whole trace")
-            lines = open(tpath).read().splitlines()
             for b in res[0]["bad"]:
                 rec = json.loads(lines[b - 1])
                 vd.violation(f"random-{k}-{b}",
